@@ -451,10 +451,20 @@ func register[C any](name string, quick, thorough int, isolating bool, gen func(
 // index hashes (with the seed) below limitQuick/total is taken -- then the
 // sub-check is reported as not exhaustive.
 func Enum[C any](name string, enum func(thorough bool, yield func(C) bool), run func(*Ctx, C) string) {
+	enumImpl(name, true, enum, run)
+}
+
+// EnumSample is Enum for enumerations that deliberately visit only a
+// (seed-selected) part of a finite space: never reported as exhaustive.
+func EnumSample[C any](name string, enum func(thorough bool, yield func(C) bool), run func(*Ctx, C) string) {
+	enumImpl(name, false, enum, run)
+}
+
+func enumImpl[C any](name string, exhaustive bool, enum func(thorough bool, yield func(C) bool), run func(*Ctx, C) string) {
 	s := &sub{name: name}
 	s.check = func(t *testing.T, s *sub) {
 		st := subStats(name)
-		st.Exhaustive = true
+		st.Exhaustive = exhaustive
 		start := time.Now()
 		defer func() { st.WallS = time.Since(start).Seconds() }()
 		i := 0
